@@ -34,6 +34,7 @@ type C16RCase struct {
 }
 
 var symbolsHookPoints = []string{
+	"auto.",
 	"s.import.check", "s.importFile", "s.importPackage.r", "s.importPackage.w", "s.getPackage",
 	"s.importResult", "s.addExtension", "s.addExtDecl", "s.lookup.read", "r.op",
 }
